@@ -175,7 +175,7 @@ func init() {
 	checks["C02"] = func(c *ctx) {
 		o := prog.DefaultOpts()
 		o.FallbackPct, o.PredPct = 5, 15
-		g := genPart(c, "C02", c.pick(70, 800), 0, o, 3, "ok,conc", c.pick(6, 12), false,
+		g := genPart(c, "C02", c.pick(70, 2000), 0, o, 3, "ok,conc", c.pick(6, 12), false,
 			"a flow with at least 3 functions, one of them with at least 2 inputs, executed without injected failures (each abstract flow is printed in 3 listing/option orders; all must match the same reference); 'conc': 4, 8 or 32 simultaneous executions of the same directive from as many goroutines, each with its own tokens, each judged on its own")
 		both(c, nil, g)
 	}
@@ -191,7 +191,7 @@ func init() {
 		o := prog.DefaultOpts()
 		o.PredPct, o.FallbackPct = 35, 30
 		o.ParMatrix = true
-		g := genPart(c, "C04", c.pick(60, 700), c.pick(60, 700), o, 1, "panic,fault,one", c.pick(8, 14), false,
+		g := genPart(c, "C04", c.pick(60, 1500), c.pick(60, 1500), o, 1, "panic,fault,one", c.pick(8, 14), false,
 			"some user function actually panicked (string, error, struct, int, nil-map write, index out of range) - task, predicate, parallel task, slice/map element function or End hook")
 		both(c, nil, g)
 	}
@@ -215,7 +215,7 @@ func init() {
 		o := prog.DefaultOpts()
 		o.ForceCOE = 2
 		o.ParMatrix = true
-		g := genPart(c, "C07", c.pick(60, 700), c.pick(40, 500), o, 1, "fault,panic,one", c.pick(8, 14), false,
+		g := genPart(c, "C07", c.pick(60, 1500), c.pick(40, 1200), o, 1, "fault,panic,one", c.pick(8, 14), false,
 			"fail-fast directive in which some user function actually failed (error or panic): returned error identity, untouched Results sentinels, nothing downstream invoked")
 		both(c, s, g)
 	}
@@ -224,7 +224,7 @@ func init() {
 		o := prog.DefaultOpts()
 		o.ForceCOE = 1
 		o.ParMatrix = true
-		g := genPart(c, "C08", 0, c.pick(100, 1200), o, 1, "fault,panic,one", c.pick(8, 16), false,
+		g := genPart(c, "C08", 0, c.pick(100, 2500), o, 1, "fault,panic,one", c.pick(8, 16), false,
 			"Parallel with cff.ContinueOnError(expr) (expr true in 80% of the scenarios, false otherwise) in which some call actually failed")
 		both(c, s, g)
 	}
@@ -239,14 +239,14 @@ func init() {
 		o := prog.DefaultOpts()
 		o.EndPct, o.MaxColl = 60, 4
 		o.ParMatrix = true
-		g := genPart(c, "C10", 0, c.pick(120, 1500), o, 1, "ok,fault,one", c.pick(8, 12), false,
+		g := genPart(c, "C10", 0, c.pick(120, 4000), o, 1, "ok,fault,one", c.pick(8, 12), false,
 			"Parallel with at least two functions or at least two collection elements (exactly-once multiset of (index,element)/(key,value) tokens; End hook after every element call, never after a failed one)")
 		both(c, nil, g)
 	}
 	checks["C11"] = func(c *ctx) {
 		o := prog.DefaultOpts()
 		o.PredPct, o.FallbackPct = 60, 50
-		g := genPart(c, "C11", c.pick(90, 1000), 0, o, 1, "ok,pred,fault,predgate", c.pick(6, 12), false,
+		g := genPart(c, "C11", c.pick(90, 3000), 0, o, 1, "ok,pred,fault,predgate", c.pick(6, 12), false,
 			"flow with at least one predicate or fallback; predicate outcomes {true,false,panic} x task outcomes {ok,error,panic}; predgate: a provider of another task input is held until the predicate has been entered")
 		both(c, nil, g)
 	}
@@ -261,7 +261,7 @@ func init() {
 	checks["C15"] = func(c *ctx) {
 		o := prog.DefaultOpts()
 		o.WrapPct, o.InstrPct, o.PredPct, o.FallbackPct, o.ShadowPct, o.BarePct = 70, 50, 30, 30, 50, 40
-		g := genPart(c, "C15", c.pick(60, 700), c.pick(60, 700), o, 2, "ok,fault", c.pick(3, 6), false,
+		g := genPart(c, "C15", c.pick(60, 1500), c.pick(60, 1500), o, 2, "ok,fault", c.pick(3, 6), false,
 			"every argument expression of the directive is wrapped in a logging identity function (>= 3 sites): ctx, Params, Results, Concurrency, ContinueOnError, emitters, instrument names, task/predicate/element/End function expressions, FallbackWith values, collections; "+
 				"or (40% of the programs, 'bare') every argument is a plain local variable - named like a generated identifier where types allow - that the program overwrites with a recognisable replacement (poison token, twin function, marked context, dummy pointer, replacement emitter/name) when the first user function is entered: any replacement observed later means the argument was not evaluated before the tasks started")
 		both(c, nil, g)
@@ -269,7 +269,7 @@ func init() {
 	checks["C18"] = func(c *ctx) {
 		o := prog.DefaultOpts()
 		o.InstrPct, o.PredPct, o.FallbackPct = 100, 35, 35
-		g := genPart(c, "C18", c.pick(70, 800), c.pick(50, 600), o, 1, "ok,pred,fault,panic", c.pick(5, 10), false,
+		g := genPart(c, "C18", c.pick(70, 2000), c.pick(50, 1500), o, 1, "ok,pred,fault,panic", c.pick(5, 10), false,
 			"at least one emitter event was recorded (1..3 WithEmitter options, each a stack of 1..3 recording emitters, nested via cff.EmitterStack; any subset of tasks instrumented; -auto-instrument for a third of the instrumented flows)")
 		parts := map[string]map[string]interface{}{}
 		if g != nil {
